@@ -806,25 +806,25 @@ impl<'a> VisitMut for Rw<'a> {
                 match (name.as_str(), args.len()) {
                     ("find", 1) => {
                         let a = args[0];
-                        *e = parse_quote!(__vx_find(#recv, #a));
+                        *e = Expr::Verbatim(quote!(__vx_find(#recv, #a)));
                         self.rule("R5");
                     }
                     ("copied", 0) => {
-                        *e = parse_quote!(__vx_copied(#recv));
+                        *e = Expr::Verbatim(quote!(__vx_copied(#recv)));
                         self.rule("R5");
                     }
                     ("enumerate", 0) => {
-                        *e = parse_quote!(__vx_enumerate(#recv));
+                        *e = Expr::Verbatim(quote!(__vx_enumerate(#recv)));
                         self.rule("R5");
                     }
                     ("zip", 1) => {
                         let a = args[0];
-                        *e = parse_quote!(__vx_zip(#recv, #a));
+                        *e = Expr::Verbatim(quote!(__vx_zip(#recv, #a)));
                         self.rule("R5");
                     }
                     ("write_str", 1) => {
                         let a = args[0];
-                        *e = parse_quote!(__vx_write_str(#recv, #a));
+                        *e = Expr::Verbatim(quote!(__vx_write_str(#recv, #a)));
                         self.rule("R5");
                     }
                     ("map", 1) => {
@@ -836,7 +836,7 @@ impl<'a> VisitMut for Rw<'a> {
                         if let Expr::Range(rg) = r {
                             if let (Some(s), Some(en), RangeLimits::Closed(_)) = (&rg.start, &rg.end, &rg.limits) {
                                 let a = args[0];
-                                *e = parse_quote!(__vx_range_map(#s, #en, #a));
+                                *e = Expr::Verbatim(quote!(__vx_range_map(#s, #en, #a)));
                                 self.rule("R7");
                             }
                         }
